@@ -336,6 +336,12 @@ def search(ctx):
         for it in pick:
             by_tool.setdefault(it["tool"], []).append(it)
         items = by_tool.get("sonar", [])[:4] + by_tool.get("defectdojo", [])[:2] + by_tool.get("semgrep", [])[:3] + by_tool.get("codeql", [])[:1]
+    # DefectDojo reports a line, and a node is selected when its line range contains it: a call spread over several lines
+    # with the finding on an inner line (hand-written: the harvested snippets are one-liners)
+    items = list(items) + [{"code": '\nresponse.set_cookie(\n    "name",\n    "value",\n)\n', "codemod": "defectdojo:python/django-secure-set-cookie",
+                            "flag": "--defectdojo-findings-json", "tool": "defectdojo", "test": "handwritten::finding-on-inner-line",
+                            "results": {"results": [{"file_path": "code.py", "id": 1, "line": 3,
+                                                     "title": "python.django.security.audit.secure-cookies.django-secure-set-cookie"}]}}]
     cases = []
     for k, it in enumerate(items):
         for n, indent in ([(3, 0), (2, 4)] if ctx.thorough else [(rng.choice([2, 3]), rng.choice([0, 4]))]):
